@@ -62,7 +62,7 @@ type Proto struct {
 	byTable map[string]*Table
 }
 
-func (p *Proto) Type(name string) *Type   { return p.byName[name] }
+func (p *Proto) Type(name string) *Type  { return p.byName[name] }
 func (p *Proto) Table(fac string) *Table { return p.byTable[fac] }
 
 // QName is the protocol-qualified type name, e.g. "szse.NewOrder".
